@@ -22,7 +22,7 @@ Identifier recomputation and determinism:
       every normally-returning path;
  (I3) no entropy / time / address / hash-map iteration is reachable from compute_parms_id.
 """
-from facts import walk, callee, target_key, root_local, strip, local_of, Defs, Tree
+from facts import walk, callee, target_key, root_local, strip, local_of, Defs, Tree, pat_bindings
 from flow import Flow, cond_atoms
 import r_guard
 
@@ -37,6 +37,70 @@ def _err_variant(e):
     return None
 
 
+def validate_family(facts, v):
+    """validate plus the local helper functions of src/context.rs it reaches (reporters such as `invalid(c, err)`,
+    sub-validators returning Result<_, ErrorType>)"""
+    fam, work = [v], [v]
+    file = facts.items[v]["file"]
+    while work:
+        g = work.pop()
+        for x in walk(facts.hir[g]):
+            f = callee(x)
+            if f and f.get("local"):
+                d = target_key(f) if target_key(f) in facts.hir else f["def"]
+                if d in facts.hir and d not in fam and facts.items.get(d, {}).get("file") == file and \
+                        facts.items[d].get("kind") in ("fn", "assoc_fn", "method", None, "Fn", "AssocFn"):
+                    fam.append(d)
+                    work.append(d)
+    return fam
+
+
+def _is_perr_store(n):
+    if n.get("k") == "Assign":
+        lhs = n["lhs"]
+        if lhs.get("k") == "Field" and lhs.get("name") == "parameter_error":
+            return True
+    return False
+
+
+def reporters(facts, fam):
+    """family function -> index of the parameter it stores into `.parameter_error`"""
+    out = {}
+    for g in fam:
+        plids = {p["pat"]["lid"]: j for j, p in enumerate(facts.items[g]["params"]) if p["pat"].get("k") == "PBind"}
+        for x in walk(facts.hir[g]):
+            if _is_perr_store(x):
+                lo = local_of(x["rhs"])
+                if lo and lo[0] in plids:
+                    out[g] = plids[lo[0]]
+    return out
+
+
+def report_sites(facts, fam, reps):
+    """(function, variant or '?', node, kind) for every place an ErrorType is reported: direct store (A), reporter call
+    (B), `Err(ErrorType::V)` in a sub-validator (C)"""
+    out = []
+    for g in fam:
+        ret = facts.items[g].get("ret", "")
+        for x in walk(facts.hir[g]):
+            if _is_perr_store(x):
+                lo = local_of(x["rhs"])
+                plids = {p["pat"]["lid"] for p in facts.items[g]["params"] if p["pat"].get("k") == "PBind"}
+                if lo and lo[0] in plids:
+                    continue                      # the reporter's own store: accounted at its call sites
+                out.append((g, _err_variant(x["rhs"]) or "?", x, "A"))
+            elif x.get("k") == "Call":
+                f = callee(x)
+                d = (target_key(f) if f and target_key(f) in reps else (f or {}).get("def"))
+                if d in reps and reps[d] < len(x["args"]):
+                    out.append((g, _err_variant(x["args"][reps[d]]) or "?", x, "B"))
+                elif "ErrorType" in ret and (x.get("ctor", "") or (f or {}).get("def", "")).endswith("::Err") and x["args"]:
+                    v = _err_variant(x["args"][0])
+                    if v:
+                        out.append((g, v, x, "C"))
+    return out
+
+
 def run_validate(facts, rep):
     R = "R-LADDER"
     rep.rule(R, "validate: early returns carry a non-Success error; nothing follows an error store but return; every "
@@ -46,22 +110,28 @@ def run_validate(facts, rep):
         return
     rep.fn(v)
     body = facts.hir[v]
-    stored = set()
-    l1 = []
-    n_early = [0]
+    fam = validate_family(facts, v)
+    reps = reporters(facts, fam)
+    sites = report_sites(facts, fam, reps)
+    for g in fam[1:]:
+        if g in reps or any(s[0] == g for s in sites):
+            rep.fn(g)
+    stored = {s[1] for s in sites}
 
     def is_err_store(n):
-        if n.get("k") == "Assign":
-            lhs = n["lhs"]
-            if lhs.get("k") == "Field" and lhs.get("name") == "parameter_error":
-                return _err_variant(n["rhs"]) or "?"
+        if _is_perr_store(n):
+            return _err_variant(n["rhs"]) or "?"
+        if n.get("k") == "Call":
+            f = callee(n)
+            d = (target_key(f) if f and target_key(f) in reps else (f or {}).get("def"))
+            if d in reps and reps[d] < len(n["args"]):
+                return _err_variant(n["args"][reps[d]]) or "?"
         return None
 
     # (L1) forward: last stored variant
     def transfer(n, st):
         ev = is_err_store(n)
         if ev is not None:
-            stored.add(ev)
             return ev
         return st
 
@@ -69,10 +139,10 @@ def run_validate(facts, rep):
     fl.run(body, "unset")
     early = [(st, node) for st, node in fl.rets if node.get("k") == "Ret"]
     tail = [(st, node) for st, node in fl.rets if node.get("k") != "Ret"]
-    for st, node in early:
-        n_early[0] += 1
+    early.sort(key=lambda t: (t[1].get("l", 0), t[1].get("c", 0)))
+    for k, (st, node) in enumerate(early):
         if st == "Success" or st == "unset":
-            rep.violation(R, "%s/early-return-with-success@%s" % (v, _ctx(body, node)),
+            rep.violation(R, "%s/early-return-with-success#%d" % (v, k),
                           "an early return (line %s) is reached while the stored error is still Success: the context "
                           "reports its parameters as set although the test that led here failed" % node.get("l"),
                           facts.loc(v, node))
@@ -85,49 +155,73 @@ def run_validate(facts, rep):
                           "without returning" % st, facts.loc(v, node))
         else:
             rep.ok(R, v + "/tail", "the final return is reached only with Success stored", facts.loc(v), nontrivial=False)
+    # sub-validators: their Err must be turned into a report by the caller
+    subs = {g for g, _, _, kind in sites if kind == "C"}
+    for g in sorted(subs):
+        callers = [(h, x) for h in fam for x in walk(facts.hir[h]) if x.get("k") == "Call" and callee(x) and
+                   (target_key(callee(x)) == g or callee(x)["def"] == g)]
+        for h, x in callers:
+            hb = facts.hir[h]
+            consumed = False
+            for y in walk(hb):
+                if y.get("k") in ("PStruct", "PTupleStruct") and y.get("path", "").endswith("::Err"):
+                    for lid, _ in pat_bindings(y):
+                        for z in walk(hb):
+                            if (_is_perr_store(z) and (local_of(z["rhs"]) or (None,))[0] == lid) or \
+                                    (is_err_store(z) is not None and z.get("k") == "Call" and
+                                     any((local_of(a) or (None,))[0] == lid for a in z["args"])):
+                                consumed = True
+                if y.get("k") == "Try" and any(w is x for w in walk(y)):
+                    consumed = True
+            key = "%s/consumes/%s" % (h, g.rsplit("::", 1)[1])
+            if consumed:
+                rep.ok(R, key, "the error returned by %s is stored as the parameter error by its caller" % g, facts.loc(h, x))
+            else:
+                rep.violation(R, key, "%s returns its failure as Err(ErrorType) but %s does not store it: the failed "
+                              "precondition is not reported" % (g, h), facts.loc(h, x))
     # (L2) each error store is immediately followed by `return` in its block
     bad2 = []
-    n_stores = 0
-    for b in walk(body):
-        if b.get("k") != "Block":
-            continue
-        stmts = b.get("stmts", [])
-        for i, s in enumerate(stmts):
-            e = s.get("e") if s.get("k") in ("Semi", "Expr") else None
-            if e is None:
+    n_stores = sum(1 for s in sites if s[1] != "Success")
+    for g in fam:
+        for b in walk(facts.hir[g]):
+            if b.get("k") != "Block":
                 continue
-            ev = is_err_store(e)
-            if ev is None or ev == "Success":
-                continue
-            n_stores += 1
-            nxt = stmts[i + 1] if i + 1 < len(stmts) else None
-            nxt_e = (nxt.get("e") if nxt and nxt.get("k") in ("Semi", "Expr") else None) or (b.get("expr") if nxt is None else None)
-            if not (isinstance(nxt_e, dict) and nxt_e.get("k") == "Ret"):
-                bad2.append((ev, e))
-    for ev, e in bad2:
+            stmts = b.get("stmts", [])
+            for i, s in enumerate(stmts):
+                e = s.get("e") if s.get("k") in ("Semi", "Expr") else None
+                if e is None or not any(e is st[2] for st in sites if st[3] == "A"):
+                    continue
+                ev = _err_variant(e["rhs"]) or "?"
+                if ev == "Success":
+                    continue
+                nxt = stmts[i + 1] if i + 1 < len(stmts) else None
+                nxt_e = (nxt.get("e") if nxt and nxt.get("k") in ("Semi", "Expr") else None) or (b.get("expr") if nxt is None else None)
+                if not (isinstance(nxt_e, dict) and nxt_e.get("k") == "Ret"):
+                    bad2.append((ev, e, g))
+    for ev, e, g in bad2:
         rep.violation(R, "%s/no-return-after/%s" % (v, ev), "ErrorType::%s is stored (line %s) but validation continues "
                       "instead of returning: later steps assume the failed precondition and may panic or overwrite the "
-                      "specific error" % (ev, e.get("l")), facts.loc(v, e))
+                      "specific error" % (ev, e.get("l")), facts.loc(g, e))
     if not bad2:
-        rep.ok(R, v + "/L2", "each of the %d error stores is followed directly by `return`" % n_stores, facts.loc(v))
+        rep.ok(R, v + "/L2", "each direct error store is followed directly by `return` (%d report sites in %d function(s))" %
+               (n_stores, len({s[0] for s in sites})), facts.loc(v))
     rep.floor(R, "error stores in validate", n_stores, 14)
     # (L6) the range tests compare with the documented bounds
     RANGE = {"InvalidCoeffModulusBitCount": ({60, 2}, "2-to-60-bit coefficient moduli"),
              "InvalidPlainModulusBitCount": ({60, 2}, "2-to-60-bit plain modulus"),
              "InvalidCoeffModulusSize": ({64, 1}, "1 to 64 coefficient moduli"),
              "InvalidPolyModulusDegree": ({131072, 2}, "degree between 2 and 2^17")}
-    tree = Tree(body)
-    defs = Defs(body)
-    for x in walk(body):
-        ev = is_err_store(x)
+    trees = {g: (Tree(facts.hir[g]), Defs(facts.hir[g])) for g in fam}
+    for g, ev, x, kind in sites:
         if ev not in RANGE:
             continue
-        g = tree.enclosing(x, ("If",))
+        tree, defs = trees[g]
+        gd = tree.enclosing(x, ("If",))
         want, text = RANGE[ev]
         vals = set()
         names = []
-        if g is not None:
-            for y in defs.closure(g["c"]):
+        if gd is not None:
+            for y in defs.closure(gd["c"]):
                 if y.get("k") == "Path" and y.get("res") not in ("local", None) and y.get("def"):
                     c = facts.consts.get(y["def"])
                     if c and c.get("value") is not None:
@@ -138,11 +232,11 @@ def run_validate(facts, rep):
         key = "%s/range/%s" % (v, ev)
         if all(w in vals for w in want):
             rep.ok(R, key, "the test reporting %s compares with the documented bounds (%s): constants {%s}" %
-                   (ev, text, ", ".join(sorted(set(names)))), facts.loc(v, x), sample={"error": ev, "constants": sorted(set(names))})
+                   (ev, text, ", ".join(sorted(set(names)))), facts.loc(g, x), sample={"error": ev, "constants": sorted(set(names))})
         else:
             rep.violation(R, key, "the test reporting %s compares with constants {%s} (values %s) instead of the documented "
                           "bounds %s (%s): parameters outside the documented range are accepted or valid ones refused" %
-                          (ev, ", ".join(sorted(set(names))), sorted(vals), sorted(want), text), facts.loc(v, x))
+                          (ev, ", ".join(sorted(set(names))), sorted(vals), sorted(want), text), facts.loc(g, x))
     # (L3) enum coverage
     et = facts.types.get("encryption_parameters::ErrorType")
     if rep.anchor(R, "ErrorType", et is not None):
@@ -302,6 +396,14 @@ def run_chain(facts, rep):
                 if a.get("k") == "Try":
                     good = True
                     break
+                if a.get("k") == "Match" and any(y is c for y in walk(a["e"])):
+                    # match callee(..) { Ok(x) => .., Err(_) => return Err(..) }: some non-success arm refuses
+                    for arm in a["arms"]:
+                        pn = arm["pat"].get("path", "").rsplit("::", 1)[-1]
+                        if (pn in ("Err", "None") or arm["pat"].get("k") == "PWild" or
+                                (arm["pat"].get("k") == "PLit" and arm["pat"].get("v") == "false")) and eng.refuses(arm["body"]):
+                            good = True
+                    break
             if good:
                 okc += 1
             else:
@@ -343,7 +445,7 @@ def run_chain(facts, rep):
     # validate consumes both
     v = "context::HeContext::validate"
     if v in facts.hir:
-        names = {(callee(y) or {}).get("name") for y in walk(facts.hir[v])}
+        names = {(callee(y) or {}).get("name") for g in validate_family(facts, v) for y in walk(facts.hir[g])}
         for need, why in (("create_ntt_tables", "moduli = 1 mod 2N"), ("new", "pairwise coprime (RNSBase::new)"),
                           ("are_coprime", "plain modulus coprime to every prime"), ("max_bit_count", "security bound")):
             if need in names:
